@@ -195,6 +195,7 @@ fn case_json(op: Op, a: &Bm, b: Option<&Bm>) -> Value {
 /// Returns the resulting state (if the subject produced one) and a violation (if any).
 pub fn transition(mode: Mode, op: Op, a: &Bm, ai: &BMOC, am: &RangeMap, b: Option<(&Bm, &BMOC, &RangeMap)>, part: &mut Part) -> (Option<Bm>, Option<Viol>) {
   let api = format!("BMOC::{}", op_name(op));
+  journal(&api, || case_json(op, a, b.map(|x| x.0)));
   let res = apply(op, ai, b.map(|x| x.1));
   let bb = b.map(|x| x.0);
   let res = match res {
